@@ -474,7 +474,18 @@ func ruleExitsAudited(p *Prog, r *Report, rule, prop string, pkgs map[string]boo
 			if left[x] > 0 {
 				left[x]--
 			} else if exitIsRespelling(x, conds[name]) {
-				respelled++
+				// ... and everything behind the new return stood under that test before
+				var ret ssa.Instruction
+				for _, st := range sites {
+					if st.Sig == x {
+						ret = st.In
+					}
+				}
+				if miss := skippedByExit(p, fn, ret); len(miss) > 0 {
+					extra += "\n   unaudited: " + x + "\n     tests only what the function tested before, but the return now skips work that did not depend on that test: " + strings.Join(miss, "; ")
+				} else {
+					respelled++
+				}
 			} else if conds[name] == nil && auditedFnNames != nil && !auditedFnNames[shortName(rootOf(fn))] {
 				// a function the audited tree does not have: nothing to compare with
 				respelled++
